@@ -9,6 +9,10 @@ for the header line; the length-prefixed data block for _readvalue) give, for AR
 'VALUE ...' inside the value: binary safety, any size):
     the value handed to the serde is exactly Dat(i), with flags Fl(i) (and the cas token for gets/gats);
     a hit returns deserialize(caller's key, Dat, Fl); no item returns an empty result; the prefix never shows in the result.
+Multi-key fetches (get_many / gets_many, verify_fetch_many): the key collection is a symbolic sequence of any length, given
+either as a re-iterable collection or as a ONE-SHOT iterator (A-iter); `remapped_keys = dict(zip(prefixed_keys, keys))` is a
+RemapV whose cut lemma `remapped_keys finds the requested key at its own position` is the obligation that failed for one-shot
+iterators before /repo e277692 (known_findings: fixed). Every returned key is the caller's own key object for that wire key.
 Together with C02 (what _store_cmd sends: prefix+key, the serde's flags, the exact byte length and data block) and C15
 (deserialize(serialize(v)) == v with its type) this gives  get(k) == v  after  set(k, v)  against a faithful server.
 """
@@ -19,8 +23,7 @@ TRUSTED = ["server reply format (DESIGN 4.4): item blocks in the documented shap
            "C02 (store command format) and C15 (serde inverse) for the composed round trip: lemma C04.roundtrip is stated, not mechanised"]
 ASSUMPTIONS = ["a faithful server returns only requested keys (otherwise KeyError: the call fails and the connection is dropped)",
                "header tokens contain no CR (token classes of the protocol)"]
-NOT_COVERED = ["multi-key fetches (get_many / gets_many): key remapping over a symbolic collection, one-shot iterators "
-               "(the one-shot iterator defect of _fetch_cmd is therefore neither reported nor repaired here)", "stats / cache_memlimit replies",
+NOT_COVERED = ["stats / cache_memlimit replies (other reply shape)", "multi-key fetch with repeated keys is decided by the cut lemma only through dict semantics of RemapV (last position wins)",
                "the composition with C02/C15 into get(set(v)) == v is an argument over three machine-checked contracts, not a fourth proof"]
 BUDGET = {"quick": 40, "thorough": 180}
 FILTER_BY_PROPERTY = True
@@ -30,6 +33,8 @@ DEPENDS = ["C03"]      # reader contracts used at every read
 
 def build(E, tier):
     cm.verify_fetch_cmd(E, names=("get", "gets", "gat", "gats"))
+    cm.verify_fetch_many(E, names=("get", "gets"))
+    cm.verify_public_fetch_many(E)
 
 
 REPLAY = r'''
@@ -64,6 +69,32 @@ for chunk in (4096, 1, 2, 3, 7):
         got = c.gets_many(tuple(keys))
         check(set(got) == set(keys[:4]) and all(got[k][0] == values[i] for i, k in enumerate(keys[:4])), dict(op="gets_many", chunk=chunk))
         check(c.get(b"absent", "dflt") == "dflt" and c.gets(b"absent") == (None, None), dict(op="miss", chunk=chunk))
+        # every kind of key collection: list, tuple, set, dict view, one-shot iterator, generator
+        for label, coll in (("list", lambda: [b"k0", "k1"]), ("tuple", lambda: (b"k0", "k1")), ("set", lambda: {b"k0", "k1"}),
+                            ("dict-view", lambda: {b"k0": 1, "k1": 2}.keys()), ("iterator", lambda: iter([b"k0", "k1"])),
+                            ("generator", lambda: (k for k in [b"k0", "k1"]))):
+            for meth in ("get_many", "gets_many"):
+                n += 1
+                try:
+                    got = getattr(c, meth)(coll())
+                    val = (lambda x: x) if meth == "get_many" else (lambda x: x[0])
+                    check(set(got) == {b"k0", "k1"} and val(got[b"k0"]) == values[0] and val(got["k1"]) == values[1],
+                          dict(op=meth, keys=label, chunk=chunk, got=repr(got)[:100]))
+                except Exception as e:
+                    check(False, dict(op=meth, keys=label, chunk=chunk, raised=repr(e)))
+        # the same key named more than once: every returned key carries its own value, every stored key named is returned
+        for label, coll in (("dup-first", [b"k0", b"k0", "k1"]), ("dup-later", [b"k2", "k1", "k1", b"k0"]), ("dup-end", ["k3", b"k0", b"k0"]),
+                            ("dup-tuple", (b"k2", b"k2", b"k2", "k3", b"k4"))):
+            for meth in ("get_many", "gets_many"):
+                n += 1
+                try:
+                    got = getattr(c, meth)(coll)
+                    val = (lambda x: x) if meth == "get_many" else (lambda x: x[0])
+                    want = {k: values[int(k[1:])] for k in coll}
+                    check(set(got) == set(want) and all(val(got[k]) == want[k] for k in want),
+                          dict(op=meth, keys=label, chunk=chunk, got=repr(got)[:160]))
+                except Exception as e:
+                    check(False, dict(op=meth, keys=label, chunk=chunk, raised=repr(e)))
         for serde in (pickle_serde, compressed_serde):
             c2 = Client(("h", 1), socket_module=srv.module(), key_prefix=prefix, serde=serde, default_noreply=False)
             for j, o in enumerate(objs + [b"q" * 1000, "w" * 1000]):
